@@ -337,7 +337,9 @@ class Session(Endpoint):
 
         # redirect user to OP logout verification page
         if plur and "state" in request:
-            _uri = "{}?{}".format(_uri, urlencode({"state": request["state"]}))
+            # the registered URI may have a query part of its own
+            _sep = "&" if "?" in _uri else "?"
+            _uri = "{}{}{}".format(_uri, _sep, urlencode({"state": request["state"]}))
             payload["state"] = request["state"]
 
         payload["redirect_uri"] = _uri
